@@ -804,3 +804,48 @@ func injectivityNotes(c *an.Ctx) {
 	c.Note("CODEC-6", nil, 0, "location-length-byte", "AuthorizedServer stores len(Location) in one byte while the server accepts longer locations; the property's domain is locations of 0..255 bytes (for those the layout is injective: every variable-length part is length-prefixed)")
 	c.Note("CODEC-6", nil, 0, "reply-length-16bit", "the sync reply's length prefix is 16 bits; a server list whose entries exceed 65535 bytes would be truncated in the prefix (outside the property's domain)")
 }
+
+// roundTripPersisted: for the three record types that are persisted and re-read at start-up, the decoder reads
+// exactly what the encoder writes (same fields, widths, byte orders, offsets). Sibling agreement only - the
+// documented layouts are C15's.
+func roundTripPersisted(c *an.Ctx) {
+	p := c.P
+	ev := func(fn *ssa.Function, withOff bool) []string {
+		if fn == nil {
+			return nil
+		}
+		c.Scope(fn)
+		evs := normaliseEvents(p.CodecEvents(fn))
+		if withOff {
+			return sigs(evs, true)
+		}
+		var out []string
+		for _, e := range evs {
+			out = append(out, e.Sig())
+		}
+		return out
+	}
+	pair := func(what string, enc, dec *ssa.Function, withOff bool) {
+		if enc == nil || dec == nil {
+			c.Undecided("ROUNDTRIP", nil, 0, "roundtrip:"+what, what+": encoder or decoder not found", "anchor missing")
+			return
+		}
+		a, b := ev(enc, withOff), ev(dec, withOff)
+		c.Check(len(a) > 0 && reflect.DeepEqual(a, b), "ROUNDTRIP", dec, dec.Pos(), an.KeyOf(dec, "roundtrip:"+what), "what is read back at start-up is what was written: the decoder of "+what+" reads the fields the encoder writes, at the same offsets, widths and byte orders", "encoder ["+strings.Join(a, " ")+"], decoder ["+strings.Join(b, " ")+"]")
+	}
+	pair("persisted reports", p.Method("glow", "EquipmentReport", "Serialize"), serverReportParser(p), true)
+	pair("persisted authorizations", p.Method("glow", "EquipmentAuthorization", "Serialize"), p.Func("glow", "DeserializeEquipmentAuthorization"), true)
+	pair("archived weeks", p.Method("server", "AllDeviceStats", "Serialize"), p.Func("server", "DeserializeStreamAllDeviceStats"), false)
+	c.Count("ROUNDTRIP", 3)
+}
+
+// serverReportParser: the server method that decodes and verifies a raw report.
+func serverReportParser(p *an.Program) *ssa.Function {
+	for _, fn := range p.FuncsIn("server") {
+		res := fn.Signature.Results()
+		if res.Len() == 2 && strings.HasSuffix(res.At(0).Type().String(), "glow.EquipmentReport") && fn.Signature.Recv() != nil {
+			return fn
+		}
+	}
+	return nil
+}
